@@ -26,6 +26,7 @@ ArrayBad(e) ==
     ELSE IF ~e.generic_dec_bulk THEN (IF e.n = 0 THEN "generic_dec_bulk_empty" ELSE "generic_dec_bulk")
     ELSE IF ~e.wrong_type_rejected THEN "wrong_type_accepted"
     ELSE IF ~e.wrong_format_rejected THEN "wrong_format_accepted"
+    ELSE IF Len(e.route_wrong_format_accepted) > 0 THEN "route_wrong_format_accepted"
     ELSE IF ~e.route_bulk_bulk THEN "route_bulk_bulk"
     ELSE IF ~e.route_bulk_generic THEN (IF e.n = 0 THEN "route_bulk_generic_empty" ELSE "route_bulk_generic")
     ELSE IF ~e.route_ref_bulk THEN "route_ref_bulk"
